@@ -1105,6 +1105,52 @@ def rule_life(rep, d, cls, selfswap):
 
 # ---------------------------------------------------------------------------------------------------------------------
 # C06.cast
+def rule_consume_first(rep, d, cls):
+    """assignment from another any: the previous content of *this may own the source (parent = std::move(child_of_parent)), so it must not be destroyed
+    before the source has been taken into a temporary - along every path"""
+    R = "C06.life"
+    for fn in members(d, cls):
+        if fn.get("name") != "operator=" or ir.is_template_pattern(d, fn) or not ir.params(fn) or not ir.has_body(fn):
+            continue
+        pq = ir.qtype(ir.params(fn)[0])
+        if "any" not in pq.replace("xtl::", "").split("&")[0].split():
+            continue
+        pname = ir.params(fn)[0].get("name")
+        label = "any::operator=(%s)" % pq.replace("xtl::", "")
+        bad = None
+        npaths = 0
+        for path in flow.function_paths(fn, with_ctor_inits=False, events=lambda n: n.get("kind") in ("CXXConstructExpr", "CXXTemporaryObjectExpr")):
+            consumed = False
+            npaths += 1
+            for st in path:
+                node = st[1] if st[0] in ("ev", "decl") and len(st) > 1 and isinstance(st[1], dict) else None
+                if node is None:
+                    continue
+                # the source taken into a temporary / local any
+                for x in [node] + list(ir.walk_expr(node)):
+                    if x.get("kind") in ("CXXConstructExpr", "CXXTemporaryObjectExpr", "CXXFunctionalCastExpr", "VarDecl") and "any" in ir.qtype(x).replace("xtl::", "").split() \
+                            and any(y.get("kind") == "DeclRefExpr" and (y.get("referencedDecl") or {}).get("name") == pname for y in ir.walk_expr(x)):
+                        consumed = True
+                if st[0] != "ev":
+                    continue
+                t = ir.sx(node)
+                destroys = False
+                if node.get("kind") == "CXXMemberCallExpr" and t[0] == "call" and t[1][0] == "mem":
+                    if t[1][1] == ("this",) and t[1][2] in ("clear", "reset"):
+                        destroys = True
+                    if t[1][2] == "destroy" and t[1][1] in (("mem", ("this",), "vtable"), ("ref", "vtable")):
+                        destroys = True
+                if node.get("kind") == "BinaryOperator" and node.get("opcode") == "=" and t[2] in (("mem", ("this",), "vtable"), ("ref", "vtable")):
+                    destroys = True
+                if destroys and not consumed and bad is None:
+                    bad = (node, "`%s` destroys or overwrites the content of *this before the source has been taken into a temporary: when that content owns the source "
+                                 "(parent = std::move(child held by parent)) the source is destroyed first and then read" % d.text(node)[:50])
+        if bad:
+            rep.violates(R, label, "source consumed before the old content is destroyed", where=d.where(bad[0]), detail=bad[1])
+        else:
+            rep.holds(R, label, "source consumed before the old content is destroyed", where=d.where(fn), detail="%d path(s)" % npaths)
+
+
 def rule_cast(rep, d, cls):
     R = "C06.cast"
     seenp = set()
@@ -1444,5 +1490,6 @@ def run(tier):
         selfswap = rule_slot(rep, d, cls)
         rep.note("self-swap safety of the swap slots: %s" % selfswap)
         rule_life(rep, d, cls, selfswap)
+        rule_consume_first(rep, d, cls)
         rule_cast(rep, d, cls)
     return rep
